@@ -57,7 +57,11 @@ def t_tx(data: bytes) -> None:
             model = None
         if model is not None and (tx.id != tx_ref.txid(model) or tx.hash != tx_ref.wtxid(model) or tx.size != len(used) or tx.weight != tx_ref.weight(model)):
             raise FuzzViolation("tx:ids-or-sizes-of-accepted-bytes", used.hex()[:400])
-        tx.vsize, tx.is_segwit, tx.is_coinbase, tx.to_dict(check_validity=False)
+        for consumer in (lambda: tx.vsize, lambda: tx.is_segwit, lambda: tx.is_coinbase, lambda: tx.sig_op_count, lambda: tx.to_dict(check_validity=False), lambda: tx.to_dict()):
+            try:
+                consumer()
+            except LIBEXC:
+                pass
     if True:
         try:
             model = tx_ref.parse(data)
@@ -77,11 +81,11 @@ def t_block(data: bytes) -> None:
     _stream_identity("header", lambda d: BlockHeader.parse(d, check_validity=False), lambda h: h.serialize(check_validity=False), data)
     b = _stream_identity("block", lambda d: Block.parse(d, check_validity=False), lambda b: b.serialize(True, check_validity=False), data)
     if b is not None:
-        b.size, b.weight, b.vsize, b.stripped_size
-        try:
-            b.assert_valid()
-        except LIBEXC:
-            pass
+        for consumer in (lambda: b.size, lambda: b.weight, lambda: b.vsize, lambda: b.stripped_size, lambda: b.assert_valid(), lambda: b.to_dict(check_validity=False)):
+            try:
+                consumer()
+            except LIBEXC:
+                pass
 
 
 def t_psbt(data: bytes) -> None:
@@ -123,7 +127,10 @@ def t_script(data: bytes) -> None:
         except LIBEXC:
             continue
         if name == "script":
-            out = script.serialize(items)
+            try:
+                out = script.serialize(items)
+            except LIBEXC:
+                continue  # parse is total and marks what it could not read; serialize refuses the marker
             try:
                 if script.serialize(script.parse(out)) != out:
                     raise FuzzViolation("script:serialize-parse-not-a-fixed-point", data.hex()[:300])
@@ -203,6 +210,29 @@ def t_miniscript(data: bytes) -> None:
             raise FuzzViolation("miniscript:read-back-compiles-differently", text[:300])
 
 
+def t_miniscript_script(data: bytes) -> None:
+    from btclib.descriptors import miniscript
+
+    for ctx in ("P2WSH", "tapscript"):
+        try:
+            node = miniscript.from_script(data, ctx)
+        except LIBEXC:
+            if miniscript.reads_back(data, ctx) is not False:
+                raise FuzzViolation("miniscript:reads_back-true-for-a-script-from_script-refuses", data.hex()[:300]) from None
+            continue
+        s = node.script() if callable(node.script) else node.script
+        if bytes(s) != data:
+            raise FuzzViolation("miniscript:accepted-script-compiles-to-other-bytes", f"{data.hex()[:300]} -> {bytes(s).hex()[:300]}")
+        if miniscript.reads_back(data, ctx) is not True:
+            raise FuzzViolation("miniscript:reads_back-false-for-a-script-that-reads-back", data.hex()[:300])
+        try:
+            again = miniscript.parse(str(node), ctx)
+        except LIBEXC:
+            continue  # from_script reads 33 octets where a key belongs; parse also asks that they are a point (C15 is about expressions, not about arbitrary scripts)
+        if again != node:
+            raise FuzzViolation("miniscript:text-of-a-read-script-re-parses-to-another-expression", data.hex()[:300])
+
+
 def t_text_codecs(data: bytes) -> None:
     from btclib import b32, b58, base58, bech32
     from btclib.bip21 import Bip21
@@ -233,5 +263,6 @@ TARGETS = {
     "keys_sigs": t_keys_sigs,
     "descriptor": t_descriptor,
     "miniscript": t_miniscript,
+    "miniscript_script": t_miniscript_script,
     "text_codecs": t_text_codecs,
 }
